@@ -481,11 +481,91 @@ def one_workers(arg):
     return res
 
 
+async def names_walk(kind: str) -> list:
+    """every wrapped operation of the message broker and the bucket brokers of one kind, called once by its public name: the
+    signals it emits must bear that name (before_<op>, then after_<op>), on every broker implementation"""
+    import fake_amqp
+    import fake_redis
+    fake_redis.install()
+    fake_amqp.install()
+    fake_redis.reset_servers()
+    fake_amqp.reset_servers()
+    from repid import RabbitMessageBroker, RedisBucketBroker, RedisMessageBroker
+    if kind == "mem":
+        mb, ab, rb = InMemoryMessageBroker(), InMemoryBucketBroker(), InMemoryBucketBroker(use_result_bucket=True)
+    elif kind == "redis":
+        mb, ab, rb = RedisMessageBroker("redis://c17"), RedisBucketBroker("redis://c17-a"), RedisBucketBroker("redis://c17-r", use_result_bucket=True)
+    else:
+        mb, ab, rb = RabbitMessageBroker("amqp://c17"), InMemoryBucketBroker(), InMemoryBucketBroker(use_result_bucket=True)
+    conn = Connection(mb, ab, rb)
+    seen: list = []
+
+    def mk(sig):
+        async def f():
+            seen.append(sig)
+        f.__name__ = sig
+        return f
+    for sname in sorted(SUBSCRIBERS_NAMES):
+        conn.middleware.add_subscriber(mk(sname))
+    await conn.connect()
+    key = RoutingKey(id_="n1", topic="t", queue="nq")
+    bucket = ArgsBucket(data="{}", timestamp=vtime.from_us(0))
+    from repid.data._buckets import ResultBucket
+    rbucket = ResultBucket(data="1", started_when=1, finished_when=2, timestamp=vtime.from_us(0))
+    cons = None
+    walk = [(mb, "queue_declare", ("nq",)), (mb, "enqueue", (key, "{}", Parameters())), ("consume", None, None),
+            (mb, "requeue", (key, "{}", Parameters())), ("consume", None, None), (mb, "reject", (key,)), ("consume", None, None),
+            (mb, "nack", (key,)), (mb, "enqueue", (RoutingKey(id_="n2", topic="t", queue="nq"), "", Parameters())), ("consume", None, None),
+            (mb, "ack", (RoutingKey(id_="n2", topic="t", queue="nq"),)), (mb, "queue_flush", ("nq",)), (mb, "queue_delete", ("nq",)),
+            (ab, "store_bucket", ("b1", bucket)), (ab, "get_bucket", ("b1",)), (ab, "delete_bucket", ("b1",)),
+            (rb, "store_bucket", ("b2", rbucket)), (rb, "get_bucket", ("b2",)), (rb, "delete_bucket", ("b2",))]
+    out = []
+    for obj, name, args in walk:
+        del seen[:]
+        if obj == "consume":
+            if cons is None:
+                cons = mb.get_consumer("nq", None)
+                await cons.start()
+            try:
+                await asyncio.wait_for(cons.consume(), 2)
+            except asyncio.TimeoutError:
+                pass
+            out.append(["consume", [x for x in seen if "consume" in x]])
+            continue
+        try:
+            await getattr(obj, name)(*args)
+            err = None
+        except Exception as e:  # noqa: BLE001
+            err = type(e).__name__
+        out.append([name, list(seen), err])
+    if cons is not None:
+        await cons.finish()
+    await conn.disconnect()
+    return out
+
+
+def one_names(kind: str) -> Result:
+    res = Result("C17")
+    rows = vtime.run(lambda loop: names_walk(kind), budget=20_000_000)
+    for row in rows:
+        name, sigs = row[0], row[1]
+        res.dist[f"names-walk:{kind}"] += 1
+        res.note(("names-walk", kind, name))
+        res.evaluations += 1
+        want = [f"before_{name}", f"after_{name}"]
+        if sigs != want:
+            res.bad("impl", "an operation called by its public name emitted other signals than before_<that name>, after_<that name> "
+                            "(exactly once each)", case={"label": "names-walk", "broker": kind, "operation": name},
+                    observed=sigs + ([f"raised {row[2]}"] if len(row) > 2 and row[2] else []), expected=want)
+    return res
+
+
 def run(ctx) -> Result:
     tier, seed = ctx["tier"], ctx["seed"]
     res = Result("C17")
     deep = tier == "thorough" or ctx.get("search")
     items = [("s", seed, i) for i in range(240 if deep else 48)] + [("w", seed, i) for i in range(60 if deep else 12)]
+    items += [("n", seed, k) for k in ("mem", "redis", "rabbit")]
     for r in pmap(_one, items):
         res.merge(r)
     return res
@@ -493,6 +573,8 @@ def run(ctx) -> Result:
 
 def _one(item):
     kind, seed, i = item
+    if kind == "n":
+        return one_names(i)
     return one_script((seed, i)) if kind == "s" else one_workers((seed, i))
 
 
